@@ -42,7 +42,7 @@ class Prop(object):
     TECHNIQUE = 'exhaustive enumeration of payload lengths / object kinds / header sets / input forms on the real armor codec vs. an independent RFC 4880 section 6 codec, plus exhaustive single-character corruption'
     RULE = ('every payload length 1..400 (thorough 1..3000) x 4 fills through Armorable.__str__ and ascii_unarmor; every object kind (public key, private key, '
             'message, detached signature, cleartext message) x header sets x input forms (str, bytes, bytearray, CRLF, surrounding text); every (loader class, '
-            'block kind) pair; for 10 payloads every single-character substitution of the radix-64 body and CRC line by {next alphabet character, =, space, !}. '
+            'block kind) pair; for 10 payloads and for 7 real armored objects (each loaded through its class) every single-character substitution of the radix-64 body and CRC line by {next alphabet character, =, space, !}. '
             'One state = one (payload | object, variation).')
     ASSUMPTIONS = ['refpgp.armor implements RFC 4880 6.1-6.4 (CRC-24 checked against the RFC constants and GnuPG-made fixture armor at setup)']
     CASE_TIMEOUT = 600
@@ -60,6 +60,8 @@ class Prop(object):
         u.append(('wrongkind', {}))
         for i in range(10):
             u.append(('corrupt', {'index': i, 'seed': seed}))
+        for name in self.CORRUPT_OBJECTS:
+            u.append(('corruptobj', {'obj': name}))
         return u
 
     def run_case(self, check, case):
@@ -264,11 +266,92 @@ class Prop(object):
         r.samples.append({'loaders': sorted(loaders)})
         return r
 
+    CORRUPT_OBJECTS = ['public key', 'private key', 'literal message', 'signed message', 'encrypted message', 'detached signature', 'cleartext message']
+
+    def _reports_crc(self, load, text):
+        """Does this loader report (warning naming the CRC, or exception) when the CRC line of `text` is changed?"""
+        lines = text.split('\n')
+        k = max(i for i, l in enumerate(lines) if l.startswith('=') and len(l) == 5)
+        lines[k] = '=' + NEXT[lines[k][1]] + lines[k][2:]
+        try:
+            with warnings.catch_warnings(record=True) as w:
+                warnings.simplefilter('always')
+                load('\n'.join(lines))
+            return any('crc' in str(x.message).lower() for x in w)
+        except Exception:
+            return True
+
+    def c_corruptobj(self, case):
+        """Every single-character substitution in the radix-64 body and CRC line of a real armored object, loaded through the class a user loads it with."""
+        r = Res()
+        objs, keep = self._objects()
+        name = case['obj']
+        obj, label, cls = objs[name]
+        obj.ascii_headers.clear()
+        text = str(obj)
+        lines = text.split('\n')
+        end = max(k for k, l in enumerate(lines) if l.startswith('-----END'))
+        beg = max(k for k, l in enumerate(lines[:end]) if l.startswith('-----BEGIN'))
+        start = beg + 1 + lines[beg + 1:].index('') + 1
+        only = case.get('only')
+        for li in range(start, end):
+            for ci in range(len(lines[li])):
+                orig = lines[li][ci]
+                if orig == '=' and ci == 0 and li == end - 1:
+                    subs = ['A', '!']
+                else:
+                    subs = [NEXT.get(orig, 'A'), '=', '!']
+                for sub in subs:
+                    if sub == orig:
+                        continue
+                    key = '%d.%d.%s' % (li, ci, sub)
+                    if only and key != only:
+                        continue
+                    r.states += 1
+                    r.transitions += 1
+                    ml = list(lines)
+                    ml[li] = lines[li][:ci] + sub + lines[li][ci + 1:]
+                    bad = '\n'.join(ml)
+                    try:
+                        a = rarmor.dearmor(bad, strict_pad=False)
+                        consistent = a['crc_ok'] is True
+                        refdata = a['data']
+                    except Exception:
+                        consistent, refdata = False, None
+                    try:
+                        with warnings.catch_warnings(record=True) as w:
+                            warnings.simplefilter('always')
+                            o2 = self._load(cls, bad)
+                        reported = any('crc' in str(x.message).lower() for x in w)
+                        oc = 'warned' if reported else 'silent'
+                    except Exception:
+                        oc, o2 = 'raised', None
+                    r.outcomes[('consistent:' if consistent else 'inconsistent:') + oc] += 1
+                    if oc == 'silent' and not consistent:
+                        r.viol('corruptobj', {'kind': 'silent', 'obj': name, 'sub': 'alphabet' if sub in rarmor.B64 else sub, 'where': 'crc-line' if li == end - 1 else 'body'},
+                               dict(case, only=key), '%s, line %d column %d %r -> %r: %s.from_blob loads it without any report although payload and CRC no longer agree'
+                               % (name, li, ci, orig, sub, cls.__name__))
+                    elif oc == 'silent' and consistent and bytes(o2) != refdata:
+                        r.viol('corruptobj', {'kind': 'decodes-differently', 'obj': name}, dict(case, only=key),
+                               '%s, line %d column %d: the loaded object exports other octets than the payload the armor carries' % (name, li, ci))
+        r.dim('object', name)
+        r.samples.append({'object': name, 'lines': end - start})
+        return r
+
     def c_corrupt(self, case):
-        """Every single-character substitution in the radix-64 body and the CRC line."""
+        """Every single-character substitution in the radix-64 body and the CRC line of arbitrary payloads (lengths no real object has), through
+        Armorable.ascii_unarmor - the place where the pinned tree reports CRC mismatches.  If a tree reports them in the loaders instead (calibrated on a
+        real message first), this unit does not apply and says so; the object-level unit corruptobj decides."""
+        import pgpy
         from pgpy.types import Armorable
         Blob = make_blob_class()
         r = Res()
+        probe = str(pgpy.PGPMessage.new(b'calibration', format='b'))
+        if not self._reports_crc(Armorable.ascii_unarmor, probe):
+            if self._reports_crc(pgpy.PGPMessage.from_blob, probe):
+                r.caps.append('Armorable.ascii_unarmor alone does not report CRC mismatches in this tree (the loaders do): arbitrary-payload corruption not explored, see corruptobj')
+                r.outcomes['not-applicable'] += 1
+                return r
         i = case['index']
         n = [1, 2, 3, 47, 48, 49, 95, 96, 100, 150][i]
         data = fills(n, case.get('seed', 0))[i % 4][1]
